@@ -81,28 +81,50 @@ theorem inv_genVar (ev : Evalr ρ) (st : St ρ) (e : Elem) (h : st.scopes ≠ []
     have h0 : Inv st { st with rng := rng } := inv_of_fields _ _ h rfl rfl rfl rfl
     exact h0.trans (inv_foldl_setVar newVars _ h)
 
+theorem inv_elementEvents (ev : Evalr ρ) (st : St ρ) (e : Elem) (h : st.scopes ≠ []) :
+    Inv st (elementEvents ev st e).1 := by
+  unfold elementEvents
+  apply inv_seq
+  · unfold commentEvents
+    split
+    · split
+      · exact inv_of_fields _ _ h rfl rfl rfl rfl
+      · exact Inv.refl st h
+    · exact Inv.refl st h
+  · intro h1 evs1
+    exact Inv.refl _ h1
+
 theorem inv_genOther (ev : Evalr ρ) (st : St ρ) (e : Elem) (h : st.scopes ≠ []) :
     Inv st (genOther ev st e).1 := by
   unfold genOther
+  apply inv_seq _ _ (inv_withRng st _ h)
+  intro h1 e'
+  dsimp only
+  have h2 := inv_updateElement ev (withRng st (otherPipeline ev st e)).1 e' h1
   split
-  · exact inv_of_fields _ _ h rfl rfl rfl rfl
-  · apply inv_seq _ _ (inv_withRng st _ h)
-    intro h1 e'
-    dsimp only
-    have h2 := inv_updateElement ev (withRng st (otherPipeline ev st e)).1 e' h1
-    split
-    · exact h2
-    · split
-      · exact h2.trans (inv_setPrev _ _ h2.2.2.1)
-      · exact h2
+  · exact h2
+  · apply inv_seq
+    · have h3 : Inv (updateElement ev (withRng st (otherPipeline ev st e)).1 e')
+          (if (‹Option Gen.BoundingBox›).isSome then setPrev (updateElement ev (withRng st (otherPipeline ev st e)).1 e') e'
+           else updateElement ev (withRng st (otherPipeline ev st e)).1 e') := by
+        split
+        · exact inv_setPrev _ _ h2.2.2.1
+        · exact Inv.refl _ h2.2.2.1
+      exact h2.trans (h3.trans (inv_elementEvents ev _ e' h3.2.2.1))
+    · intro h4 evs
+      exact Inv.refl _ h4
 
 theorem inv_finishContainer (ev : Evalr ρ) (st : St ρ) ne bb (h : st.scopes ≠ []) :
     Inv st (finishContainer ev st ne bb) := by
   unfold finishContainer
+  dsimp only
+  have h0 : Inv st (if bb.isSome then updateElement ev st { ne with contentBBox := bb } else st) := by
+    split
+    · exact inv_updateElement ev st _ h
+    · exact Inv.refl st h
   split
-  · have h1 := inv_updateElement ev st { ne with contentBBox := bb } h
-    exact h1.trans (inv_setPrev _ _ h1.2.2.1)
-  · exact Inv.refl st h
+  · exact h0.trans (inv_setPrev _ _ h0.2.2.1)
+  · exact h0
 
 theorem inv_preTest (ev : Evalr ρ) (st : St ρ) c w i (h : st.scopes ≠ []) : Inv st (preTest ev st c w i).1 := by
   unfold preTest
@@ -156,6 +178,22 @@ theorem inv_groupFinish (ev : Evalr ρ) (st : St ρ) e r (h : st.scopes ≠ []) 
   · exact hsp
   · split <;> exact hsp
 
+theorem inv_clipPost (ev : Evalr ρ) (e : Elem) (x : St ρ × Res) (h : x.1.scopes ≠ []) :
+    Inv x.1 (clipPost ev e x).1 := by
+  unfold clipPost
+  split
+  · split
+    · split
+      · exact Inv.refl _ h
+      · split
+        · split
+          · exact Inv.refl _ h
+          · exact inv_updateElement ev _ _ h
+          · exact Inv.refl _ h
+        · exact Inv.refl _ h
+    · exact Inv.refl _ h
+  · exact Inv.refl _ h
+
 /-- the invariant for every function of the mutual block at a given fuel -/
 structure AllInv (ev : Evalr ρ) (fuel : Nat) : Prop where
   genElem : ∀ (st : St ρ) e kids, st.scopes ≠ [] → Inv st (genElem ev fuel st e kids).1
@@ -191,10 +229,13 @@ theorem genElem_step (st : St ρ) e kids (h : st.scopes ≠ []) :
   · exact Inv.refl st h
   · dsimp only
     have hd := ih.dispatch { st with depth := st.depth + 1 } e kids h
-    refine ⟨?_, hd.2.1, hd.2.2.1, hd.2.2.2.1, hd.2.2.2.2⟩
-    have := hd.1
-    simp only at this ⊢
-    omega
+    have h0 : Inv st { (Ctl.dispatch ev fuel { st with depth := st.depth + 1 } e kids).1 with
+        depth := (Ctl.dispatch ev fuel { st with depth := st.depth + 1 } e kids).1.depth - 1 } := by
+      refine ⟨?_, hd.2.1, hd.2.2.1, hd.2.2.2.1, hd.2.2.2.2⟩
+      have := hd.1
+      simp only at this ⊢
+      omega
+    exact h0.trans (inv_clipPost ev e _ h0.2.2.1)
 
 theorem dispatch_step (st : St ρ) e kids (h : st.scopes ≠ []) :
     Inv st (Ctl.dispatch ev (fuel + 1) st e kids).1 := by
@@ -302,11 +343,11 @@ theorem loopIter_step (st : St ρ) ks c w u n v s i acc bb (h : st.scopes ≠ []
   · have hb := inv_bindLoopVar (preTest ev st c w i).1 n v h1
     apply inv_seq _ _ (hb.trans (ih.processNodes _ _ hb.2.2.1))
     intro h2 r
-    apply inv_seq _ _ (inv_postTest ev _ u h2)
-    intro h3 stop
     split
-    · exact Inv.refl _ h3
-    · split
+    · exact Inv.refl _ h2
+    · apply inv_seq _ _ (inv_postTest ev _ u h2)
+      intro h3 stop
+      split
       · exact Inv.refl _ h3
       · exact ih.loopIter _ _ _ _ _ _ _ _ _ _ _ h3
 
